@@ -28,7 +28,7 @@ RULE = ('view programs of depth 1..3 over the device-supported operations (index
         'both operand rebuild modes (device_array / create_array(ptr,shape_ptr,dim)); block sizes cycle through 1..33, grids from '
         'exactly covering to 2x over-provisioned, orders ascending / descending / block-interleaved / even-odd / random permutation, '
         'duplicated threads, far out-of-range threads, partial launches; one program additionally over the full cross product '
-        'bsz 1..33 x grid x order; binary ufuncs with both operands views and reductions over them; 12 programs end to end through the real SYCL evaluator over a mock runtime '
+        'bsz 1..33 x grid x order; binary ufuncs with both operands views and reductions over them; number-valued sub-views (reductions over all axes) as first / non-first operands of binary ufuncs, alone, nested, repeated leaf; number literal operands in either position; 18 programs end to end through the real SYCL evaluator over a mock runtime '
         '(its own launch: work-group 32, global size rounded up; work items in 5 orders, duplicated, beyond the launch, omitted); uploads of row- and column-major '
         'operands of rank 1..8 through the real CUDA / HIP create_array. non-trivial = output has >= 2 cells and the schedule is not the plain ascending exact launch')
 EXHAUSTIVE = {'quick': False, 'thorough': False}
@@ -40,7 +40,7 @@ ANCHORS = {'NmVerif.Kernel.createVector/createArray/createMutableArray': 'array:
            'NmVerif.Kernel.deviceOperand': 'cuda::context_t::create_array / hip / sycl (eval/cuda/context.hpp:155-200, eval/hip/context.hpp:158-203, eval/sycl/context.hpp:372-412), run for real in h_c13_dev.cpp / h_c13_sycl.cpp',
            'SYCL launch': 'sycl::context_t::run / run_ (eval/sycl/context.hpp:448-520, 575-595) and evaluator_t<view, shared_ptr<sycl::context_t>> (eval/sycl/evaluator.hpp), run for real over the mock runtime'}
 MANIFEST = dict(
-    text='Proof: 13 Lean theorems about the kernel body model — create_vector/create_array/device_array round trips from raw (pointer, shape, dim) triples, the guard (global id >= size writes nothing), the closed form of the fold over ANY schedule (order, interleaving, duplication, block size, over-provisioned or partial grid: a cell is final iff some executed thread addressed it, otherwise untouched; never out of bounds) and hence output = flattened host result for every covering launch — tied to the C++ by running the real kernel_helper.hpp + functional extraction/apply on the host for 59 view programs of depth 1..3, the real SYCL evaluator end to end over a sequential mock of the SYCL runtime (12 programs) and the real CUDA/HIP operand upload over runtime stand-ins (CUDA/HIP/SYCL path: function extraction + device_array operands + fn::apply; OpenCL path: create_array(ptr,shape_ptr,dim) + direct view call), block sizes 1..33, exact..2x grids, five thread orders, duplicated / far / missing threads, against NumPy and the Lean fold on every check.',
+    text='Proof: 13 Lean theorems about the kernel body model — create_vector/create_array/device_array round trips from raw (pointer, shape, dim) triples, the guard (global id >= size writes nothing), the closed form of the fold over ANY schedule (order, interleaving, duplication, block size, over-provisioned or partial grid: a cell is final iff some executed thread addressed it, otherwise untouched; never out of bounds) and hence output = flattened host result for every covering launch — tied to the C++ by running the real kernel_helper.hpp + functional extraction/apply on the host for 71 view programs of depth 1..3, the real SYCL evaluator end to end over a sequential mock of the SYCL runtime (18 programs) and the real CUDA/HIP operand upload over runtime stand-ins (CUDA/HIP/SYCL path: function extraction + device_array operands + fn::apply; OpenCL path: create_array(ptr,shape_ptr,dim) + direct view call), block sizes 1..33, exact..2x grids, five thread orders, duplicated / far / missing threads, against NumPy and the Lean fold on every check.',
     note='No device in this sandbox: kernel launch, driver API, memory transfer and real hardware scheduling are not exercised; the 1-d launch is modelled as an arbitrary list of (thread, block) pairs executed sequentially (threads write disjoint cells or identical values, so sequential consistency is the only assumption). Lean kernel + propext/Classical.choice/Quot.sound. Known findings (both replayed through the real SYCL evaluator and the real CUDA/HIP create_array as well): column-major host operands are re-read row-major on the device path (repair proposed: fixes/C13-kernel.colmajor-operand.diff); function extraction is wrong when a view operand is not the first operand (fixes/C14-extract.nonfirst-view-operand.diff); follow-ups on branch w4/c1314-postfix. Repaired: dangling reference in get_function_composition for binary ufuncs over views (regression programs kept, also under ASan in the thorough tier).',
     technique='Lean 4 induction over schedules (List (tid x bid)) + differential correspondence of the host-compilable kernel body')
 ASSUMPTIONS = ['a device launch is equivalent to some sequential execution of its threads (each thread writes one cell; colliding writes carry the same value)',
@@ -281,6 +281,37 @@ def _progs():
     add('sum_add_neg_neg', 9, 3, lambda A, p: np.sum((-A[0]) + (-A[1]), axis=p['axis']), g_sum_mul, nonfirst=True)
     add('max_mul_add', 9, 2, lambda A, p: np.maximum(A[0] * A[1], A[2] + A[3]), g_quad, data='small', nonfirst=True)
     add('neg_add_mul_mul', 9, 3, lambda A, p: -(A[0] * A[1] + A[2] * A[3]), g_quad, data='small', nonfirst=True)
+    # ---- NUMBER-valued sub-views: a reduction over ALL axes (axis None, keepdims false: 0-d, broadcasts like a scalar) as an
+    #      operand of a broadcasting binary ufunc; the device path re-applies the extracted composition, whose ufunc branch looks
+    #      through the broadcast_to around the 0-d view (function_composition.hpp:96-113).  First position: in-domain; any other
+    #      position: the known class extract.nonfirst-view-operand on the device path ----
+    def g_free2(rng):
+        return [rshape(rng), rshape(rng)], P()
+    def g_one(rng):
+        return [rshape(rng)], P()
+    def g_pair_free(rng):
+        s = rshape(rng); return [s, bpartner(rng, s), rshape(rng)], P()
+    def g_free_pair(rng):
+        s = rshape(rng); return [rshape(rng), s, bpartner(rng, s)], P()
+    def g_free_tr(rng):
+        s = rshape(rng); return [rshape(rng), s], P(axes=perm(rng, len(s)))
+    add('mul_sumall_x', 10, 2, lambda A, p: np.sum(A[0]) * A[1], g_free2, bview=True)
+    add('sub_maxall_x', 10, 2, lambda A, p: np.max(A[0]) - A[1], g_free2, bview=True)
+    add('add_x_maxall', 10, 2, lambda A, p: A[0] + np.max(A[1]), g_free2, nonfirst=True)
+    add('sub_sumall_x_rep', 10, 2, lambda A, p: np.sum(A[0]) - A[0], g_one, bview=True)
+    add('sub_x_sumall_rep', 10, 2, lambda A, p: A[0] - np.sum(A[0]), g_one, nonfirst=True)
+    add('neg_mul_sumall_mul_x', 11, 3, lambda A, p: -(np.sum(A[0] * A[1]) * A[2]), g_pair_free, data='small', bview=True)
+    add('add_mul_sumall_x_x', 11, 3, lambda A, p: np.sum(A[0]) * A[1] + A[2], g_free_pair, bview=True)
+    add('tr_add_maxall_x', 11, 3, lambda A, p: np.transpose(np.max(A[0]) + A[1], p['axes']), g_free_tr, bview=True)
+    add('mul_x_sumall_mul', 11, 3, lambda A, p: A[0] * np.sum(A[1] * A[2]), g_free_pair, data='small', nonfirst=True)
+    # number literal operands of binary ufuncs, either position
+    def g_lit1(rng):
+        return [rshape(rng)], P(lit=rng.choice([-7, -2, -1, 0, 1, 2, 3, 5, 11]))
+    def g_lit2(rng):
+        s = rshape(rng); return [s, bpartner(rng, s)], P(lit=rng.choice([-7, -2, -1, 0, 1, 2, 3, 5, 11]))
+    add('add_x_lit', 10, 1, lambda A, p: A[0] + p['lit'], g_lit1)
+    add('mul_lit_x', 10, 1, lambda A, p: p['lit'] * A[0], g_lit1)
+    add('neg_add_mul_x_lit_x', 10, 3, lambda A, p: -(A[0] * p['lit'] + A[1]), g_lit2, bview=True)
     # ---- column-major leaves (known finding kernel.colmajor-operand) ----
     add('transpose_col', 6, 1, lambda A, p: np.transpose(A[0], p['axes']), g_transpose, layout='col')
     add('add_col', 6, 1, lambda A, p: A[0] + A[1], g_bin, layout='col')
@@ -288,15 +319,16 @@ def _progs():
 
 
 PROGS = _progs()
-GROUPS = [1, 2, 3, 4, 5, 6, 7, 8, 9]
+GROUPS = [1, 2, 3, 4, 5, 6, 7, 8, 9, 10, 11]
 
 
 # programs also run END TO END through the real SYCL evaluator (eval/sycl/evaluator.hpp + context.hpp) over the sequential
 # stand-in for the SYCL runtime harness/c13_sycl_mock.hpp: name -> harness TU group (h_c13_sycl.cpp)
 SYCL_PROGS = {'transpose': 1, 'add': 1, 'reduce_add': 1, 'accumulate_add': 1, 'neg_add': 1, 'add_tr': 1,
               'sum_mul': 2, 'neg_add_mul': 2, 'tr_neg_add': 2, 'add_mul2': 2,
-              'transpose_col': 3, 'add_col': 3}
-SYCL_GROUPS = [1, 2, 3]
+              'transpose_col': 3, 'add_col': 3,
+              'mul_sumall_x': 4, 'sub_maxall_x': 4, 'neg_mul_sumall_mul_x': 4, 'add_x_maxall': 4, 'add_x_lit': 4, 'mul_lit_x': 4}
+SYCL_GROUPS = [1, 2, 3, 4]
 SYCL_LOCAL = 32          # work-group size chosen by sycl::context_t::run_
 _SYCL_INC = os.path.join(os.path.dirname(os.path.dirname(os.path.dirname(os.path.abspath(__file__)))), 'harness', 'c13_sycl')
 
